@@ -294,7 +294,8 @@ COMPONENTS = [
     "vpkg22", "pkgs", "...", "~", "a.liquid.", "a.", ".liquid", "\x00", "a\x00", "a.liquid\x00.txt", "\n", "a\n", "\x7f", "<S>", "a<S>", "x" * 300, "nope", "*", "a.LIQUID",
 ]
 SEPS = ["/", "/", "/", "//", "\\", "/./"]
-PREFIXES = ["", "", "", "", "/", "//", "<T>/outside/", "<T>/root1/", "<T>/", "<T>/pkgs/vpkg22/", "./", "../", "~/"]
+# "/<T>/..." expands to a name with two leading slashes, which POSIX pathlib keeps as the separate root "//"
+PREFIXES = ["", "", "", "", "/", "//", "<T>/outside/", "<T>/root1/", "<T>/", "<T>/pkgs/vpkg22/", "./", "../", "~/", "/<T>/outside/", "//<T>/outside/", "/<T>/root1/", "/<T>/pkgs/vpkg22/", "/<T>/"]
 
 
 def gen_name(rng) -> str:
@@ -311,6 +312,7 @@ def gen_name(rng) -> str:
 
 BASIC = ["a.liquid", "a", "sub/b.liquid", "sub/b", "sub/deep/c.txt", "noext", "both", "d", "d.liquid", "link_in.liquid", "link_out.liquid", "linkdir/secret.liquid", "link_r2.liquid",
          "sub/up/outside/secret.liquid", "abs_out.liquid", "../outside/secret.liquid", "<T>/outside/secret.liquid", "<T>/root1/a.liquid", "<T>/pkgs/vpkg22/secret.liquid",
+         "/<T>/outside/secret.liquid", "//<T>/outside/secret.liquid", "/<T>/pkgs/vpkg22/secret.liquid", "/<T>/root1/a.liquid", "/<T>/outside/secret",
          "../secret.liquid", "../secret", "m", "c.txt", "sub/../a.liquid", "", ".", "/", "x" * 300, "sub/" + "y" * 5000, "\x00", "<S>", "dangling.liquid", "loop.liquid", "é", "sp ace"]
 
 
@@ -324,7 +326,7 @@ def cases(ctx: core.Ctx):
         # exhaustive: all 1- and 2-component names (single '/' separator, no prefix and the absolute prefixes) for every config
         if ctx.tier == "thorough":
             for c in cfgs:
-                for pre in ("", "/", "<T>/outside/"):
+                for pre in ("", "/", "<T>/outside/", "/<T>/outside/"):
                     for a in COMPONENTS:
                         yield {"config": c, "name": pre + a, "surrogate": "<S>" in a}
                         for b in COMPONENTS:
